@@ -15,6 +15,8 @@ def main():
     lock_path, mdir, nthr, rounds, seed, inject = sys.argv[1:7]
     nthr, rounds, seed, inject = int(nthr), int(rounds), int(seed), int(inject)
     forever = len(sys.argv) > 7 and sys.argv[7] == 'forever'
+    modes = sys.argv[8].split(',') if len(sys.argv) > 8 else ['with', 'acq', 'nb', 'timed', 'ctx']
+    inject_p = float(sys.argv[9]) if len(sys.argv) > 9 else 0.08
     import logging
     logging.disable(logging.CRITICAL)
     import aiuti.filelock as F
@@ -32,9 +34,9 @@ def main():
         def cb(code, line):
             with ilock:
                 x = irng.random()
-            if x < 0.08:
+            if x < inject_p:
                 yields[0] += 1
-                time.sleep(0 if x < 0.05 else 0.0002)
+                time.sleep(0 if x < inject_p * 0.6 else 0.0002 + x * 0.01)
 
         mon.register_callback(4, mon.events.LINE, cb)
         for co in simrt.module_code_objects(F):
@@ -84,7 +86,7 @@ def main():
         while (forever and not stop.is_set()) or (not forever and k < rounds):
             k += 1
             o = objs[rng.randrange(2)]
-            mode = rng.choice(['with', 'acq', 'nb', 'timed', 'ctx'])
+            mode = rng.choice(modes)
             try:
                 if mode == 'with':
                     try:
